@@ -622,6 +622,9 @@ class _Norm:
         if k == "un":
             op, x = t[1], t[2]
             if op in ("!", "not"):
+                if lang == "java" and self._is_objects_equals(x):
+                    # `!Objects.equals(l, r)` is how `l != r` is written for two references
+                    return ("cmp", "!=", self.go(x[2][0]), self.go(x[2][1]))
                 # `!x.isPresent()`, `!(x.has_value())` are is_none
                 inner = self.go(x)
                 if lang in ("java", "cpp") and inner[0] == "is_not_none" and self._direct_presence(x):
@@ -674,6 +677,10 @@ class _Norm:
         if k == "index":
             return ("index", self.go(t[1]), self.go(t[2]))
         raise self.err("unexpected node", t)
+
+    def _is_objects_equals(self, x) -> bool:
+        return (x[0] == "call" and x[1][0] == "attr" and x[1][1] == ("name", "Objects")
+                and x[1][2] == "equals" and len(x[2]) == 2)
 
     def _direct_presence(self, x) -> bool:
         """x (generic) is literally `<e>.isPresent()` / `<e>.has_value()` (maybe parenthesised)."""
@@ -773,6 +780,8 @@ class _Norm:
                 return ("call", nn(f[1]), [self.go(a) for a in args])
             raise self.err("typescript call", t)
         if lang == "java":
+            if self._is_objects_equals(t):
+                return ("cmp", "==", self.go(args[0]), self.go(args[1]))
             if f[0] == "attr":
                 obj, m = f[1], f[2]
                 if m == "isPresent" and not args:
@@ -869,9 +878,13 @@ def flagged_when(lang: str, check: Dict[str, Any]):
     return t
 
 
+_NEGATED = {"==": "!=", "!=": "==", "<": ">=", ">=": "<", "<=": ">", ">": "<="}
+
+
 def canon(t):
     """Semantics-preserving canonical form used on both sides of the comparison:
-    not(not x) -> x; not(is_none x) -> is_not_none x; not(is_not_none x) -> is_none x
+    not(not x) -> x; not(is_none x) -> is_not_none x; not(is_not_none x) -> is_none x;
+    not(l < r) -> l >= r and so on (Java writes `l != r` on references as `!Objects.equals(l, r)`)
     (Java and C++ write `x is None` as `!x.isPresent()` / `!(x.has_value())`, which is also
     what they emit for `not (x is not None)`)."""
     if isinstance(t, tuple):
@@ -884,6 +897,8 @@ def canon(t):
                 return ("is_not_none", x[1])
             if x[0] == "is_not_none":
                 return ("is_none", x[1])
+            if x[0] == "cmp" and x[1] in _NEGATED:
+                return ("cmp", _NEGATED[x[1]], x[2], x[3])
         return t
     if isinstance(t, list):
         return [canon(x) for x in t]
